@@ -33,9 +33,9 @@ var families = map[string]family{
 	"c03": {name: "c03", wFeedCall: 5, wFeedNote: 8, wFeedBatch: 6, wFeedInvalid: 1, wGate: 12, wCancel: 1, wPush: 1, wBuiltin: 1,
 		idPool: []string{"1", "2", "3", "4", "5", "6"}, Ks: []int{1, 2, 4, 8}, push: []bool{false, true}, builtin: []bool{true}, steps: 20},
 	"c06": {name: "c06", wFeedCall: 4, wFeedNote: 2, wFeedBatch: 10, wGate: 12, wCancel: 4, wBuiltin: 2,
-		idPool: []string{"1", "2", "3", "4", "5", "6", "7", "8"}, Ks: []int{1, 2, 3, 5}, push: []bool{false}, builtin: []bool{true}, steps: 20},
+		idPool: []string{"1", "2", "3", "4", "5", "6", "7", "8"}, Ks: []int{1, 2, 3, 5}, push: []bool{false, true}, builtin: []bool{true}, steps: 20},
 	"c07": {name: "c07", wFeedCall: 10, wFeedNote: 1, wFeedBatch: 5, wFeedInvalid: 2, wGate: 10, wCancel: 6, wBuiltin: 1, wSendFault: 2,
-		idPool: []string{"1", "2", `"a"`}, Ks: []int{1, 2, 4}, push: []bool{false}, builtin: []bool{true, false}, steps: 22},
+		idPool: []string{"1", "2", `"a"`, `"1"`, `"2"`}, Ks: []int{1, 2, 4}, push: []bool{false}, builtin: []bool{true, false}, steps: 22},
 	"c08": {name: "c08", wFeedCall: 6, wFeedNote: 5, wFeedBatch: 5, wFeedInvalid: 3, wFeedRaw: 2, wFeedReply: 1, wGate: 8, wCancel: 1, wStop: 3, wPush: 2, wFeedErr: 3, wRestart: 2, wSendFault: 2, wWait: 2,
 		idPool: []string{"1", "2", "3", "4"}, Ks: []int{1, 2, 4}, push: []bool{false, true}, builtin: []bool{true}, steps: 22},
 	"c09": {name: "c09", wFeedCall: 3, wFeedNote: 3, wFeedBatch: 2, wFeedReply: 10, wGate: 6, wStop: 1, wPush: 10, wCbCtx: 5, wFeedInvalid: 1,
@@ -302,7 +302,7 @@ func (s *scen) step() {
 			}
 		}},
 		{f.wFeedBytes, func() { r.feedBytes(s.variantRecord()) }},
-		{f.wCancel, func() { r.callCancel(pick(g, append([]string{"99"}, f.idPool...))) }},
+		{f.wCancel, func() { r.callCancel(pick(g, append([]string{"99", "a"}, f.idPool...))) }},
 		{f.wStop, func() { r.callStop() }},
 		{f.wPush, func() {
 			if g.chance(1, 3) {
@@ -553,6 +553,8 @@ func runServerScenario(t *testing.T, fam string, seed uint64, idx int, out *bufi
 	}
 	g := newRng(seed*1000003 + uint64(idx))
 	cfg := srvConfig{K: pick(g, f.Ks), push: pick(g, f.push), builtin: pick(g, f.builtin), unblock: g.chance(1, 2), methods: []string{"g"}}
+	cfg.rpclog = idx%2 == 1
+	cfg.closeErr = idx%5 == 2
 	if scriptFor(fam, idx) != nil {
 		// the scripted histories need room for two handlers at once, and pushes
 		cfg.push = true
